@@ -723,6 +723,33 @@ pub fn run_c03(cfg: &Cfg) -> Report {
     // deep nesting: valid encodings, truncations and a corruption at every level boundary
     let s = parallel(cfg, 5, |t| {
         let mut i = 0u64;
+        // long payloads (3- and 4-byte length prefixes), exact, one byte short, claimed one byte too long
+        if t.cfg.tier != Tier::Tiny {
+            for len in [16_384usize, 70_000, 2_097_152] {
+                for shape in [Shape::Str, Shape::Bytes, Shape::Seq(Box::new(Shape::U8))] {
+                    i += 1;
+                    if !t.mine(i) {
+                        continue;
+                    }
+                    let text = shape.text();
+                    let sfp = fp(text.as_bytes());
+                    let mut valid = varint_bytes(len as u128);
+                    valid.extend(std::iter::repeat(b'x').take(len));
+                    t.st.count("long_payload_cases");
+                    c03_compare(t, &shape, &text, sfp, "long_valid", &valid);
+                    c03_compare(t, &shape, &text, sfp, "long_prefix", &valid[..valid.len() - 1]);
+                    let mut over = varint_bytes(len as u128 + 1);
+                    over.extend(std::iter::repeat(b'x').take(len));
+                    c03_compare(t, &shape, &text, sfp, "long_overclaimed", &over);
+                    if shape == Shape::Str {
+                        let mut bad = valid.clone();
+                        let l = bad.len();
+                        bad[l - 1] = 0xC3; // truncated scalar at the very end of a long string
+                        c03_compare(t, &shape, &text, sfp, "long_bad_utf8", &bad);
+                    }
+                }
+            }
+        }
         for kind in 0..7 {
             for &depth in &DEEP_DEPTHS {
                 i += 1;
